@@ -1160,6 +1160,34 @@ func (r *runner) apply(w *world, st Step) (M, bool) {
 					return M{"what": "property monitor failed on the implementation", "property": "C07", "diff": what, "property_violation": true, "step": st}, false
 				}
 			}
+			if monitors["C10"] {
+				// "fires once for every occurrence after the schedule's creation": a schedule created by the server starts with its
+				// next run strictly after its creation time (on the cron grid, where the grid is known)
+				grid := map[string]int64{"* * * * * *": 1000, "*/2 * * * * *": 2000, "*/5 * * * * *": 5000, "*/30 * * * * *": 30000, "* * * * *": 60000, "0 * * * * *": 60000}
+				old := map[string]bool{}
+				if ps, _ := w.prev["schedules"].([]any); ps != nil {
+					for _, x := range ps {
+						if row, _ := x.(map[string]any); row != nil {
+							old[fmt.Sprint(row["id"], "#", row["sortId"])] = true
+						}
+					}
+				}
+				ss, _ := cur["schedules"].([]any)
+				for _, x := range ss {
+					row, _ := x.(map[string]any)
+					if row == nil || old[fmt.Sprint(row["id"], "#", row["sortId"])] || row["lastRunTime"] != nil {
+						continue
+					}
+					co, nx := jnum(row["createdOn"]), jnum(row["nextRunTime"])
+					bad := nx <= co
+					if g, ok := grid[fmt.Sprint(row["cron"])]; ok && !bad {
+						bad = nx != (co/g+1)*g
+					}
+					if bad {
+						return M{"what": "property monitor failed on the implementation", "property": "C10", "diff": fmt.Sprintf("schedule %v (cron %v) was created at %d with its first run at %d: the first occurrence after the creation is expected", row["id"], row["cron"], co, nx), "property_violation": true, "step": st}, false
+					}
+				}
+			}
 			if monitors["C19"] || monitors["C08"] {
 				// "an undeliverable address results in a failed, retried hand-off": a task moves from init to enqueued only
 				// after a hand-off the transport accepted
